@@ -28,7 +28,14 @@ import vlib
 import c16_dump
 
 PROP = 'C16'
-ALL_FIXES = ('stop', 'bucketns', 'base', 'skiptrace')
+# candidate repairs of the two recorded findings (proposed_fixes/C16-*.diff), selectable in the
+# transcribed mechanism through the constant Fixes.  When one is applied to glom, move it from the
+# Fixes switch into the mechanism proper of GlomGroup.tla and keep the old behaviour as a Mutant,
+# as was done for the bucket-key collision (glom fd673fd) and the Limit base case (glom b769243):
+# every configuration, MC and Trace (whose cfg says Fixes = {}), then runs the code as it is.
+ALL_FIXES = ('stop', 'skiptrace')
+# historic mechanisms kept as spec mutants: (Mutant value, universe name) - must violate LawRefGroup
+HISTORIC = (('rawbucket', 'SMALL_IDS'), ('nobase', 'SMALL'))
 
 
 # ---- abstract spec -> real spec ----------------------------------------------------------
@@ -100,9 +107,13 @@ def build_group(levels, spelling, boxed=False):
             raise vlib.MachineryError('unknown aggregator %r' % (a,))
     objs = [cur]
     keyobjs = [None]
+    used_t = False
     for lv in reversed(levels[:-1]):
         if lv['op'] == 'dict':
-            k = _key_fn(lv['key'], spelling, ub)
+            # T is one object: only one level may use it as its key spec, so that the key-spec
+            # objects of different levels stay distinct objects (as in the specification)
+            k = _key_fn(lv['key'], 1 if (lv['key'] == 'ident' and used_t) else spelling, ub)
+            used_t = used_t or k is T
             cur = {k: cur}
             keyobjs.insert(0, k)
         elif lv['op'] == 'limit':
@@ -241,10 +252,6 @@ def regions(levels, items):
             if path in seen:
                 out.add('first-under-key-stop')
             seen.add(path)
-    if any(x['k'] == 'id' and levels[x['n'] - 1]['op'] == 'dict' for x in items):
-        out.add('id-collision')
-    if levels[0]['op'] == 'limit' and levels[1]['op'] in ('dict', 'list') and not ps:
-        out.add('limit-empty')
     d = 1 if levels[0]['op'] == 'limit' else 0
     if levels[d]['op'] == 'dict' and levels[d + 1]['op'] != 'last' and \
             any(_key_apply(levels[d]['key'], x) != 'SKIP' and not _survives(levels, x) for x in ps):
@@ -526,20 +533,35 @@ def record(check, n, seed):
         rs = RealSpec(levels, rng.choice([0, 1]))      # a fresh spec object per row
         results = play_hist(rs, hist)
         rows.append(dict(spec=levels, hist=hist, obs=[results[e][1] for e in sorted(results)]))
-    rejects = vlib.validate_rows(check, 'Trace_C16', rows, 'random-histories', chunk=max(200, n // 8 + 1),
-                                 workers_parallel=8)
+    # self-test of the binding: one recorded row with a corrupted observation must be rejected
+    donor = next(r for r in rows if r['obs'] and r['obs'][0]['k'] in ('dict', 'list') and r['obs'][0]['items'])
+    corrupt = json.loads(json.dumps(donor))
+    corrupt['obs'][0]['items'] = corrupt['obs'][0]['items'][:-1]
+    corrupt['corrupted'] = True
+    rows.append(corrupt)
+    rejects = vlib.validate_rows(check, 'Trace_C16', rows, 'random-histories', chunk=max(200, n // 6 + 1),
+                                 workers_parallel=6)
     drift = 0
+    caught = False
     for row, rej in rejects:
+        if row.get('corrupted'):
+            caught = True
+            continue
         if rej['clause'] == 'drift':     # law holds on the observables, mechanism model differs: no alarm
             drift += 1
             continue
+        if rej['clause'] == 'shape':
+            raise vlib.MachineryError('recorded row does not fit the trace module: %r' % (row,))
         items = rej['items']
         case = dict(kind='group-result', spec=row['spec'], items=items, hist=row['hist'], obs=rej['obs'],
                     pred=rej['pred'], mech=rej['mech'], obs_is_mech=(rej['obs'] == rej['mech']),
                     regions=sorted(regions(row['spec'], items)), how='recorded history, evaluation %d' % rej['e'])
         check.violation(case, 'recorded execution rejected by the specification (clause %s): predicted %s observed %s'
                         % (rej['clause'], json.dumps(rej['pred']), json.dumps(rej['obs'])), matcher=match_finding)
-    check.extra['recorded_rows'] = len(rows)
+    if not caught:
+        raise vlib.MachineryError('the corrupted recorded row was not rejected by Trace_C16')
+    check.extra['corrupted_row_rejected'] = True
+    check.extra['recorded_rows'] = len(rows) - 1
     check.extra['recorded_drift'] = drift
     for row in rows[:2]:
         check.sample(dict(kind='recorded', **row), limit=6)
@@ -563,27 +585,29 @@ UNIVERSES = {
     'quick': [
         ('flat', consts(MaxKeyLevels=2, MaxItems=3, MaxTotal=3, ItemMax=3, KFs=tla_set(['ident', 'mod2', 'skip0']),
                         LimitNs='{99, 2}')),
-        ('flat-deep', consts(MaxKeyLevels=3, MaxItems=4, MaxTotal=4, ItemMax=2, KFs=tla_set(['half', 'skipodd']),
-                             Aggs=tla_set(['First', 'Avg', 'Flatten']), VFs=tla_set(['ident']), LimitNs='{99, 3}')),
+        ('flat-deep', consts(MaxKeyLevels=3, MaxItems=3, MaxTotal=3, ItemMax=2, KFs=tla_set(['half', 'skipodd']),
+                             Aggs=tla_set(['First', 'Avg', 'Flatten']), VFs=tla_set(['ident']), LimitNs='{99, 2}')),
         ('limit0', consts(MaxKeyLevels=1, MaxItems=2, MaxTotal=2, ItemMax=1, KFs=tla_set(['mod2']), LimitNs='{0}')),
         ('ids', consts(MaxKeyLevels=2, MaxItems=3, MaxTotal=3, ItemMax=1, WithIds='TRUE', KFs=tla_set(['ident']),
                        Aggs=tla_set(['First', 'Count']), VFs=tla_set(['ident']), LimitNs='{99, 2}')),
-        ('nested', consts(MaxKeyLevels=1, MaxItems=2, MaxTotal=4, ItemMax=1, MaxEvals=3, MaxDepth=2,
-                          KFs=tla_set(['mod2']), Aggs=tla_set(['First', 'Max', 'Sum', 'Merge']),
-                          VFs=tla_set(['ident']), LimitNs='{99, 1}')),
+        ('nested', consts(MaxKeyLevels=1, MaxItems=3, MaxTotal=4, ItemMax=1, MaxEvals=2, MaxDepth=2,
+                          KFs=tla_set(['mod2']), Aggs=tla_set(['First', 'Max', 'Merge']),
+                          VFs=tla_set(['ident']), LimitNs='{99}')),
     ],
     'thorough': [
-        ('flat', consts(MaxKeyLevels=2, MaxItems=5, MaxTotal=5, ItemMax=3, KFs=tla_set(['ident', 'mod2', 'half', 'skip0']),
+        ('flat', consts(MaxKeyLevels=2, MaxItems=4, MaxTotal=4, ItemMax=3, KFs=tla_set(['ident', 'mod2', 'skip0']),
                         LimitNs='{99, 3}')),
-        ('limit0', consts(MaxKeyLevels=2, MaxItems=2, MaxTotal=2, ItemMax=1, KFs=tla_set(['mod2', 'skip0']), LimitNs='{0}')),
-        ('flat-deep', consts(MaxKeyLevels=3, MaxItems=5, MaxTotal=5, ItemMax=3, KFs=tla_set(['mod2', 'half', 'skipodd']),
+        ('flat-long', consts(MaxKeyLevels=1, MaxItems=5, MaxTotal=5, ItemMax=3, KFs=tla_set(['mod2', 'skip0']),
+                             LimitNs='{99, 3}')),
+        ('flat-deep', consts(MaxKeyLevels=3, MaxItems=4, MaxTotal=4, ItemMax=2, KFs=tla_set(['mod2', 'half', 'skipodd']),
                              Aggs=tla_set(['First', 'Avg', 'Flatten', 'Count']), VFs=tla_set(['ident']),
                              LimitNs='{99, 3}')),
+        ('limit0', consts(MaxKeyLevels=2, MaxItems=2, MaxTotal=2, ItemMax=1, KFs=tla_set(['mod2', 'skip0']), LimitNs='{0}')),
         ('ids', consts(MaxKeyLevels=3, MaxItems=4, MaxTotal=4, ItemMax=1, WithIds='TRUE', KFs=tla_set(['ident']),
                        Aggs=tla_set(['First', 'Count']), VFs=tla_set(['ident']), LimitNs='{99, 2}')),
-        ('nested', consts(MaxKeyLevels=1, MaxItems=3, MaxTotal=5, ItemMax=1, MaxEvals=3, MaxDepth=3,
-                          KFs=tla_set(['mod2', 'skip0']), Aggs=tla_set(AGGS),
-                          VFs=tla_set(['ident']), LimitNs='{99, 1}')),
+        ('nested', consts(MaxKeyLevels=1, MaxItems=3, MaxTotal=4, ItemMax=1, MaxEvals=3, MaxDepth=3,
+                          KFs=tla_set(['mod2']), Aggs=tla_set(['First', 'Max', 'Avg', 'Merge']),
+                          VFs=tla_set(['ident']), LimitNs='{99}')),
     ],
 }
 SMALL = consts(MaxKeyLevels=2, MaxItems=3, MaxTotal=3, ItemMax=2, KFs=tla_set(['ident', 'mod2']), LimitNs='{99, 0, 2}')
@@ -595,79 +619,91 @@ SMALL_NESTED = consts(MaxKeyLevels=1, MaxItems=2, MaxTotal=3, ItemMax=1, MaxEval
                       Aggs=tla_set(['Max', 'Avg', 'Sum']), VFs=tla_set(['ident']), LimitNs='{99, 1}')
 
 
-def model_level_checks(check, tier):
+def model_level_jobs(tier):
     """TLC-only runs: (a) the full law is violated by the transcribed mechanism as long as one of the
-    three recorded defects is left unrepaired, and holds once all candidate repairs are applied;
+    recorded defects is left unrepaired, and holds once all candidate repairs are applied;
     (b) mutants of the mechanism are rejected."""
     runs = []
-    for leave_out, universe in (('stop', SMALL), ('base', SMALL), ('skiptrace', SMALL_SKIP), ('bucketns', SMALL_IDS)):
+    for leave_out, universe in (('stop', SMALL), ('skiptrace', SMALL_SKIP)):
         fixes = [f for f in ALL_FIXES if f != leave_out]
-        runs.append(('law violated without repair "%s"' % leave_out, 'MC_C16_full',
-                     dict(universe, Fixes=tla_set(fixes)), 'LawRefGroup'))
-    runs.append(('law holds with all repairs', 'MC_C16_full', dict(SMALL, Fixes=tla_set(ALL_FIXES)), None))
-    runs.append(('law holds with all repairs (ids)', 'MC_C16_full', dict(SMALL_IDS, Fixes=tla_set(ALL_FIXES)), None))
-    runs.append(('law holds with all repairs (skips)', 'MC_C16_full', dict(SMALL_SKIP, Fixes=tla_set(ALL_FIXES)), None))
+        runs.append(dict(label='law violated without repair "%s"' % leave_out, module='MC_C16', cfg='MC_C16_full',
+                         constants=dict(universe, Fixes=tla_set(fixes)), expect='LawRefGroup', workers=2, heap='2g'))
+    for name, universe in (('', SMALL), (' (ids)', SMALL_IDS), (' (skips)', SMALL_SKIP)):
+        runs.append(dict(label='law holds with all repairs' + name, module='MC_C16', cfg='MC_C16_full',
+                         constants=dict(universe, Fixes=tla_set(ALL_FIXES)), expect=None, workers=2, heap='2g'))
+    # the mechanisms of glom before the two applied repairs: with every remaining candidate repair
+    # switched on, the full law must still be violated by each of them (quick: the collision only)
+    for m, uname in (HISTORIC if tier == 'thorough' else HISTORIC[:1]):
+        runs.append(dict(label='historic mechanism %s rejected' % m, module='MC_C16', cfg='MC_C16_full',
+                         constants=dict(globals()[uname], Fixes=tla_set(ALL_FIXES), Mutant='"%s"' % m),
+                         expect='LawRefGroup', workers=2, heap='2g'))
     muts = [('carry', SMALL_NESTED), ('avgint', SMALL_NESTED)] if tier == 'quick' else \
         [('carry', SMALL_NESTED), ('avgint', SMALL), ('limit1', SMALL), ('firstlast', SMALL)]
     for m, universe in muts:
-        runs.append(('mutant %s rejected' % m, 'MC_C16', dict(universe, Mutant='"%s"' % m), 'any'))
-    from concurrent.futures import ThreadPoolExecutor
+        runs.append(dict(label='mutant %s rejected' % m, module='MC_C16', cfg='MC_C16',
+                         constants=dict(universe, Mutant='"%s"' % m), expect='any', workers=2, heap='2g'))
+    return runs
 
-    def one(run):
-        label, cfg, cs, expect = run
-        return run, vlib.run_tlc('MC_C16', cfg=cfg, constants=cs, workers=2, heap='2g')
-    report = []
-    with ThreadPoolExecutor(max_workers=4) as ex:
-        for (label, cfg, cs, expect), res in ex.map(one, runs):
-            if expect is None:
-                vlib.tlc_must_pass(res, label)
-                check.add_tlc(res, 'MC_C16 %s' % label)
-            else:
-                if res['violated'] is None or (expect != 'any' and res['violated'] != expect):
-                    raise vlib.MachineryError('%s: expected TLC to report %s violated, got %r\n%s'
-                                              % (label, expect, res['violated'], '\n'.join(res['out'][-15:])))
-            report.append(dict(run=label, violated=res['violated'], states=res['distinct']))
-    check.extra['model_level'] = report
+
+def judge_model_level(check, job, res):
+    label, expect = job['label'], job['expect']
+    if expect is None:
+        vlib.tlc_must_pass(res, label)
+        check.add_tlc(res, 'MC_C16 %s' % label)
+    elif res['violated'] is None or (expect != 'any' and res['violated'] != expect):
+        raise vlib.MachineryError('%s: expected TLC to report %s violated, got %r\n%s'
+                                  % (label, expect, res['violated'], '\n'.join(res['out'][-15:])))
+    check.extra.setdefault('model_level', []).append(dict(run=label, violated=res['violated'], states=res['distinct']))
 
 
 def main(tier, seed):
     check = vlib.Check(PROP, tier, seed)
     known = {}
-    for label, cs in UNIVERSES[tier]:
-        res, results = c16_dump.map_states('MC_C16', worker, keep=('spec', 'evals', 'hist'), constants=cs,
-                                           coverage=(label == 'nested'))
-        check.add_tlc(res, 'MC_C16 %s' % label)
-        if label == 'nested':
-            cov = res.get('coverage') or {}
-            for act in ('StartEval', 'FeedItem', 'EndEval'):
-                if not cov.get(act):
-                    raise vlib.MachineryError('action %s never taken in universe %s (coverage %r)' % (act, label, cov))
-        for r in results:
-            check.cov['evaluations'] += r['calls']
-            check.cov['distinct_nontrivial'] += r['nontrivial']
-            check.validated(r['agree'])
-            check.extra['unconstrained_results'] = check.extra.get('unconstrained_results', 0) + r['unconstrained']
-            for s in r['samples']:
-                check.sample(dict(universe=label, **s))
-            for b in r['bad']:
-                check.violation(b['case'], b['why'], matcher=match_finding)
-            for fid, n in r['known'].items():
-                known[fid] = known.get(fid, 0) + n
+    jobs = c16_dump.Jobs()
+    try:
+        todo = [dict(label=label, module='MC_C16', cfg='MC_C16', constants=cs, dump=True, coverage=(label == 'nested'),
+                     workers=8 if label.startswith('flat') else 4, heap='6g') for label, cs in UNIVERSES[tier]]
+        todo += model_level_jobs(tier)
+        for job, res, path in jobs.run(todo, parallel=6):
+            label = job['label']
+            if not job.get('dump'):
+                judge_model_level(check, job, res)
+                continue
+            vlib.tlc_must_pass(res, 'MC_C16 ' + label)
+            check.add_tlc(res, 'MC_C16 %s' % label)
+            if label == 'nested':
+                cov = res.get('coverage') or {}
+                for act in ('StartEval', 'FeedItem', 'EndEval'):
+                    if not cov.get(act):
+                        raise vlib.MachineryError('action %s never taken in universe %s (coverage %r)' % (act, label, cov))
+            for r in c16_dump.map_dump(path, worker, keep=('spec', 'evals', 'hist')):
+                check.cov['evaluations'] += r['calls']
+                check.cov['distinct_nontrivial'] += r['nontrivial']
+                check.validated(r['agree'])
+                check.extra['unconstrained_results'] = check.extra.get('unconstrained_results', 0) + r['unconstrained']
+                for s in r['samples']:
+                    check.sample(dict(universe=label, **s))
+                for b in r['bad']:
+                    check.violation(b['case'], b['why'], matcher=match_finding)
+                for fid, n in r['known'].items():
+                    known[fid] = known.get(fid, 0) + n
+    finally:
+        jobs.close()
     # cases the workers pre-classified beyond the first three per chunk
     for fid, n in known.items():
         check.known_hits[fid] = check.known_hits.get(fid, 0) + n
-    model_level_checks(check, tier)
-    record(check, {'quick': 4000, 'thorough': 60000}[tier], seed)
+    record(check, {'quick': 2500, 'thorough': 40000}[tier], seed)
     check.extra['universes'] = {label: cs for label, cs in UNIVERSES[tier]}
     check.assumptions += [
         'one key spec per dict level (the property speaks of nested {key_spec: ...} levels); Limit only at top level',
-        'a value function may yield SKIP only in a top-level [val] leaf or a bare-value leaf under a key level '
-        '(under a key level, [val] with a SKIP value leaves an empty bucket: the property text does not decide it)',
+        'a SKIP-producing value function is not used in a bare-value leaf at top level (Group(f) would return the '
+        'SKIP sentinel itself)',
         'the result for a bare aggregator / bare value that received no item is not constrained (Python references '
         'of first / max / min / mean are undefined on nothing; glom returns None, also for Sum / Count / Flatten / Merge)',
         'key / value functions come from a fixed library (T, T % 2, t // 2, constant, two SKIP-producing; T, T + 1, '
         'T * 10, SKIP-producing); items are small ints or id() of dict / list spec nodes; Avg compared as exact rational',
-        'Sample (random) and Limit below the top level are outside the universe',
+        'Sample (random) and Limit below the top level are outside the universe; the key-spec objects of different '
+        'levels are distinct objects',
         'TLC, the Json community module and the codec are trusted']
     return check.finish(rule='TLC explores every (spec chain, action history) within the constants; every reachable '
                         'state is replayed (each prefix = calls on one re-used spec object in several forms); '
